@@ -64,12 +64,16 @@ class Seams:
                 self.saved.append((m, "set", m.__dict__.get("set", _MISSING)))
                 m.__dict__["set"] = cls
         if self.uuid_stream is not None:
-            model = mods["generator.model"]
-            fake = pytypes.ModuleType("uuid")
-            fake.__dict__.update(real_uuid.__dict__)
-            fake.uuid4 = self.uuid_stream.uuid4
-            self.saved.append((model, "uuid", model.__dict__.get("uuid", _MISSING)))
-            model.__dict__["uuid"] = fake
+            # every way a generator module can reach uuid4: `import uuid` (module attribute, patched on the real
+            # module for the duration of the run) and `from uuid import uuid4 [as x]` (a module global bound to it)
+            orig = real_uuid.uuid4
+            self.saved.append((real_uuid, "uuid4", orig))
+            real_uuid.uuid4 = self.uuid_stream.uuid4
+            for m in mods.values():
+                for k, v in list(m.__dict__.items()):
+                    if v is orig:
+                        self.saved.append((m, k, v))
+                        m.__dict__[k] = self.uuid_stream.uuid4
         return self
 
     def __exit__(self, *a):
